@@ -61,7 +61,7 @@ def run_programs(ctx, binary, progs, name):
     n = len([d for d in os.listdir(ctx.scratch) if d.startswith(name + "-")])
     os.environ["VERIF_RIG_OFFSET0"] = "1"
     try:
-        res = rig_common.run(ctx, binary, progs, par=8, timeout=1500, name=name)
+        res = rig_common.run(ctx, binary, progs, par=8, timeout=1500, name=name, probe_errors_ok=True)
     finally:
         os.environ.pop("VERIF_RIG_OFFSET0", None)
     outdir = os.path.join(ctx.scratch, "%s-%d" % (name, n), "out")
